@@ -93,9 +93,11 @@ def run_item(item):
         warned = [x for x in w if issubclass(x.category, FunctionsAndColumnsOverlapWarning)]
         must_name = [n_ for n_ in ns if kinds[n_] != "timeconv"]  # derived time-unit nodes are not rules:
         # they are simply not created when the name is a data column (time_conversion.py), nothing is overridden
-        if must_name and (not warned or not all(n_ in str(warned[0].message) for n_ in must_name)):
-            viol(f"{kinds[ns[0]]}:no_warning", f"no FunctionsAndColumnsOverlapWarning naming {ns} when overriding a {kinds[ns[0]]} node",
-                 supplied=ns)
+        text = "\n".join(str(x.message) for x in warned)
+        unnamed = [n_ for n_ in must_name if f'"{n_}"' not in text]
+        if must_name and (not warned or unnamed):
+            viol(f"{kinds[unnamed[0] if unnamed else ns[0]]}:no_warning",
+                 f"no FunctionsAndColumnsOverlapWarning naming {unnamed or ns} when overriding {len(ns)} node(s) ({variant})", supplied=ns)
         if variant == "other_dtype" and not any("converted" in str(x.message) for x in w):
             viol("conversion:no_warning", f"column {ns} was converted to its internal type without a warning", supplied=ns)
         for t in targets:
@@ -128,6 +130,10 @@ def run_item(item):
             break
         a, b = (nodes[i] for i in rng.choice(len(nodes), 2, replace=False))
         supply([a, b], "pair")
+    # a data set that already carries many computed columns: each of them is used and each is announced
+    if item["chunk"] % 2 == 0 and len(nodes) > 30:
+        many = [nodes[i] for i in rng.choice(len(nodes), int(rng.integers(12, 30)), replace=False)]
+        supply(many, "many")
     # data as a dict of Series that carry arbitrary index labels; the supplied column is taken from the result
     # frame (fresh RangeIndex) - columns are positional, labels must not matter
     import pandas as pd
